@@ -110,7 +110,7 @@ func C07(c *core.Ctx) {
 				return nil
 			}
 			n++
-			s := asStr(vec["s"])
+			s := c07Wide.Replace(asStr(vec["s"]))
 			env := tplEnv{}
 			for k, v := range asMap(vec["env"]) {
 				m := asMap(v)
@@ -127,6 +127,12 @@ func C07(c *core.Ctx) {
 				return e.V, true
 			}
 			want := asMap(vec["r"])
+			if v, ok := want["v"].(string); ok {
+				want["v"] = c07Wide.Replace(v)
+			}
+			if v, ok := want["msg"].(string); ok {
+				want["msg"] = c07Wide.Replace(v)
+			}
 			got, err, pan := safeSubstitute(s, mapping)
 			c.Eval(s+"|"+fmt.Sprint(env), strings.Contains(s, "$"))
 			if n%997 == 1 {
@@ -237,6 +243,9 @@ func C07(c *core.Ctx) {
 // once before under another environment (interpolation must not have written into it); mode 2: in a second compose file,
 // after a first one that includes a project whose .env defines every variable (that environment belongs to the included
 // project only).
+// markers for characters of more than one byte (the specification's strings are kept ASCII)
+var c07Wide = strings.NewReplacer("@e", "é", "@o", "ö", "@>", "→")
+
 func c07Load(s string, env tplEnv, want map[string]interface{}, mode int, dir string) string {
 	q, _ := json.Marshal(s)
 	doc := "services:\n  a:\n    image: img\n    labels:\n      k: " + string(q) + "\n"
